@@ -140,7 +140,7 @@ _res_common = dict(
     _t(tier, ["-sample", "250"], ["-sample", "6000", "-variants", "2"]),
     trace=("Trace_Resource", "Trace_Resource.cfg"),
     required=["New:ok", "Set:ok", "SetID:ok", "Copy:ok", "NewLike:ok", "TypeCopy:ok", "MutSlice:ok", "Marshal:ok",
-              "Filter:ok", "AddField:ok", "RemoveField:ok", "after-making:Copy", "after-making:NewLike", "after-making:TypeCopy", "Equal:soft-soft", "Equal:soft-wrap", "Equal:wrap-soft",
+              "Filter:ok", "AddField:ok", "RemoveField:ok", "after-making:Copy", "after-making:NewLike", "after-making:TypeCopy", "after-making:both-sides-grow", "Equal:soft-soft", "Equal:soft-wrap", "Equal:wrap-soft",
               "Equal:wrap-wrap"],
     assumptions=["Set values are well-typed (typed or untyped nil only for nullable kinds)",
                  "to-many relationships are compared as sets by the equality laws",
